@@ -309,9 +309,15 @@ func checkC06(c c06Case, rec *Rec) *Violation {
 		}
 		if c.DNS {
 			nperm++
-			got := c06ClassOf(rules.GetDNSBasicRule(append([]*rules.NetworkRule{}, a...)))
+			ra := append([]*rules.NetworkRule{}, a...)
+			got := c06ClassOf(rules.GetDNSBasicRule(ra))
 			if got != want {
 				res = viol(id, c06Sig(c, "GetDNSBasicRule"), "GetDNSBasicRule(%q) -> %s, reference class %s", netTexts(a), got, want)
+				return false
+			}
+			// the caller's slice evaluated once more: the same rules, the same verdict
+			if got2 := c06ClassOf(rules.GetDNSBasicRule(ra)); got2 != want {
+				res = viol(id, c06Sig(c, "GetDNSBasicRule")+":second-evaluation", "GetDNSBasicRule(%q) -> %s when the caller's slice is evaluated a second time (now %q), reference class %s", netTexts(a), got2, netTexts(ra), want)
 				return false
 			}
 			return true
@@ -323,10 +329,18 @@ func checkC06(c c06Case, rec *Rec) *Violation {
 				b[i] = srcRules[x]
 			}
 			nperm++
-			mr := rules.NewMatchingResult(append([]*rules.NetworkRule{}, a...), append([]*rules.NetworkRule{}, b...))
+			ra, rb := append([]*rules.NetworkRule{}, a...), append([]*rules.NetworkRule{}, b...)
+			mr := rules.NewMatchingResult(ra, rb)
 			got := c06ClassOf(mr.GetBasicResult())
 			if got != want {
 				res = viol(id, c06Sig(c, "NewMatchingResult"), "NewMatchingResult(rules=%q, sourceRules=%q).GetBasicResult() -> %s, reference class %s", netTexts(a), netTexts(b), got, want)
+				ok = false
+				return false
+			}
+			// the caller's slices evaluated once more: the same rules, the same verdict
+			if got2 := c06ClassOf(rules.NewMatchingResult(ra, rb).GetBasicResult()); got2 != want {
+				res = viol(id, c06Sig(c, "NewMatchingResult")+":second-evaluation", "NewMatchingResult(rules=%q, sourceRules=%q) -> %s when the caller's slices are evaluated a second time (now %q / %q), reference class %s",
+					netTexts(a), netTexts(b), got2, netTexts(ra), netTexts(rb), want)
 				ok = false
 				return false
 			}
@@ -390,6 +404,29 @@ func checkC06(c c06Case, rec *Rec) *Violation {
 			}
 		}
 		got := c06ClassOf(e.MatchRequest(rules.NewRequest(c06URL, c06Src, rules.TypeImage)).GetBasicResult())
+		if len(src) > 0 {
+			// a request of the referrer page to itself (URL == source URL): its own rules are the referrer candidates that
+			// are not document-only, its referrer rules are all referrer candidates
+			var own []string
+			for _, x := range src {
+				docOnly := false
+				_, opts, _ := strings.Cut(x, "$")
+				for _, o := range strings.Split(opts, ",") {
+					switch o {
+					case "urlblock", "genericblock", "document", "elemhide", "jsinject", "generichide", "content", "extension":
+						docOnly = true
+					}
+				}
+				if !docOnly {
+					own = append(own, x)
+				}
+			}
+			wantSelf := c06RefClass(own, src)
+			if g := c06ClassOf(e.MatchRequest(rules.NewRequest(c06Src, c06Src, rules.TypeImage)).GetBasicResult()); g != wantSelf {
+				cleanup()
+				return viol(id, c06Sig(c, "Engine.MatchRequest")+":self-request", "Engine.MatchRequest(%s requested from itself) over lists %+v -> %s, reference class %s", c06Src, lists, g, wantSelf)
+			}
+		}
 		if len(c.Decoys) > 0 && got == want {
 			wantDecoy := c06RefClass(c.Req, append(append([]string{}, src...), c.Decoys...))
 			if g := c06ClassOf(e.MatchRequest(rules.NewRequest(c06URL, c06DecoySrc, rules.TypeImage)).GetBasicResult()); g != wantDecoy {
